@@ -1013,6 +1013,20 @@ func (b *BaseStore) replicationLoadComplete(ctx context.Context, logs []ipfslog.
 	b.Logger().Debug("replication load complete")
 	entries := []ipfslog.Entry{}
 	for _, log := range logs {
+		// entries written for another database must not get in: the log's Join filters them out of its
+		// entries but would still adopt them as heads, which makes them part of the listing
+		foreign := false
+		for _, e := range log.GetEntries().Slice() {
+			if e.GetLogID() != oplog.GetID() {
+				foreign = true
+				break
+			}
+		}
+		if foreign {
+			b.Logger().Error("fetched log contains entries of another database and was discarded")
+			continue
+		}
+
 		_, err := oplog.Join(log, -1)
 		if err != nil {
 			// a rejected log must not keep the other fetched logs from being merged
